@@ -47,6 +47,49 @@ let tag_name = function
 
 let b2i b = if b then 1 else 0
 
+(* the stream statement (Model/C09Spec.v, C09_stream_statement) evaluated on a case: the
+   history is rebuilt with ghost offsets from s: and isn:, checked to map back to the very ops,
+   and the verdict of hist_okb is returned together with its arguments when it was evaluated *)
+let spec_eval (ops : string list) (mops : C09Model.op list) : string * (BinNums.coq_Z list * BinNums.coq_Z * C09Spec.hop list) option =
+  let (d, f, k, y, va, vb) = variant in
+  let sarg = Stdlib.List.fold_left (fun acc o -> match split_on ':' o with ["s"; h] -> Some h | ["s"] -> Some "" | _ -> acc) None ops in
+  let iarg = Stdlib.List.fold_left (fun acc o -> match split_on ':' o with ["isn"; n] -> Some (int_of_string n) | _ -> acc) None ops in
+    match sarg, iarg with
+    | Some sh, Some isn ->
+      let sbytes = bytes_of_hex sh in
+      let slen = String.length sh / 2 in
+      let hop_of (o : string) : C09Spec.hop option option =   (* None: not expressible; Some None: ignored op *)
+        match split_on ':' o with
+        | ["cfg"; a] -> (match split_on ',' a with [p; q] -> Some (Some (C09Spec.HCfg (zi p, zi q))) | _ -> None)
+        | ["keep"; a] -> Some (Some (C09Spec.HKeep (pairs (split_on ',' a))))
+        | ["keep"] -> Some (Some (C09Spec.HKeep []))
+        | ["fwo"; a] -> (match split_on ',' a with [t; tc] -> Some (Some (C09Spec.HFlush (zi t, zi tc))) | _ -> None)
+        | ["fco"; t] -> Some (Some (C09Spec.HFlush (zi t, zi t)))
+        | ["fall"] -> Some (Some C09Spec.HFlushAll)
+        | "s" :: _ | "isn" :: _ -> Some None
+        | ["seg"; a] -> (match split_on ',' a with
+            | [sq; fl; ts; h] ->
+              let f = int_of_string fl and n = String.length h / 2 in
+              if f land 8 <> 0 then None
+              else if f land 1 <> 0 then
+                (if f land 6 <> 0 then None else Some (Some (C09Spec.HSyn (z_of_int n, zi ts))))
+              else
+                let d = (int_of_string sq - isn - 1) land 0xFFFFFFFF in
+                let d = if d >= 0x80000000 then d - 0x100000000 else d in
+                if d < 0 || d + n > slen then None
+                else Some (Some (C09Spec.HData (z_of_int d, z_of_int n, f land 2 <> 0, f land 4 <> 0, zi ts)))
+            | _ -> None)
+        | _ -> None in
+      let hs = Stdlib.List.map hop_of ops in
+      if Stdlib.List.exists (fun x -> x = None) hs then ("ok", None)
+      else begin
+        let hops = Stdlib.List.filter_map (fun x -> match x with Some (Some h) -> Some h | _ -> None) hs in
+        let back = Stdlib.List.map (C09Spec.op_of sbytes (z_of_int isn)) hops in
+        if back <> mops then ("ok", None)   (* not a consistent history of (S, isn): statement does not apply *)
+        else ((if C09Spec.hist_ok_variant d f k y va vb sbytes (z_of_int isn) hops then "ok" else "FAIL"), Some (sbytes, z_of_int isn, hops))
+      end
+    | _ -> ("ok", None)
+
 let run (id : string) (ops : string list) (out : out_channel) =
   (* ops that the model ignores still count as steps (empty observation), to keep step numbers aligned *)
   let parsed = Stdlib.List.map parse_op ops in
@@ -81,50 +124,55 @@ let run (id : string) (ops : string list) (out : out_channel) =
          incr nprinted;
          if !stopped then Printf.fprintf out "%s\t%d\tev=%s;used=-\n" id i (Buffer.contents buf)
          else Printf.fprintf out "%s\t%d\tev=%s;used=%d\n" id i (Buffer.contents buf) (int_of_z used))) parsed;
-  (* the stream statement (Model/C09Spec.v, C09_stream_statement) evaluated on this case: the
-     history is rebuilt with ghost offsets from s: and isn:, checked to map back to the very ops,
-     and the verdict of hist_okb is printed as the last observation (the harness prints spec=ok) *)
-  let sarg = Stdlib.List.fold_left (fun acc o -> match split_on ':' o with ["s"; h] -> Some h | ["s"] -> Some "" | _ -> acc) None ops in
-  let iarg = Stdlib.List.fold_left (fun acc o -> match split_on ':' o with ["isn"; n] -> Some (int_of_string n) | _ -> acc) None ops in
-  let verdict =
-    match sarg, iarg with
-    | Some sh, Some isn ->
-      let sbytes = bytes_of_hex sh in
-      let slen = String.length sh / 2 in
-      let hop_of (o : string) : C09Spec.hop option option =   (* None: not expressible; Some None: ignored op *)
-        match split_on ':' o with
-        | ["cfg"; a] -> (match split_on ',' a with [p; q] -> Some (Some (C09Spec.HCfg (zi p, zi q))) | _ -> None)
-        | ["keep"; a] -> Some (Some (C09Spec.HKeep (pairs (split_on ',' a))))
-        | ["keep"] -> Some (Some (C09Spec.HKeep []))
-        | ["fwo"; a] -> (match split_on ',' a with [t; tc] -> Some (Some (C09Spec.HFlush (zi t, zi tc))) | _ -> None)
-        | ["fco"; t] -> Some (Some (C09Spec.HFlush (zi t, zi t)))
-        | ["fall"] -> Some (Some C09Spec.HFlushAll)
-        | "s" :: _ | "isn" :: _ -> Some None
-        | ["seg"; a] -> (match split_on ',' a with
-            | [sq; fl; ts; h] ->
-              let f = int_of_string fl and n = String.length h / 2 in
-              if f land 8 <> 0 then None
-              else if f land 1 <> 0 then
-                (if f land 6 <> 0 then None else Some (Some (C09Spec.HSyn (z_of_int n, zi ts))))
-              else
-                let d = (int_of_string sq - isn - 1) land 0xFFFFFFFF in
-                let d = if d >= 0x80000000 then d - 0x100000000 else d in
-                if d < 0 || d + n > slen then None
-                else Some (Some (C09Spec.HData (z_of_int d, z_of_int n, f land 2 <> 0, f land 4 <> 0, zi ts)))
-            | _ -> None)
-        | _ -> None in
-      let hs = Stdlib.List.map hop_of ops in
-      if Stdlib.List.exists (fun x -> x = None) hs then "ok"
-      else begin
-        let hops = Stdlib.List.filter_map (fun x -> match x with Some (Some h) -> Some h | _ -> None) hs in
-        let back = Stdlib.List.map (C09Spec.op_of sbytes (z_of_int isn)) hops in
-        if back <> mops then "ok"   (* not a consistent history of (S, isn): statement does not apply *)
-        else if C09Spec.hist_ok_variant d f k y va vb sbytes (z_of_int isn) hops then "ok" else "FAIL"
-      end
-    | _ -> "ok" in
+  (* the verdict of the stream statement is printed as the last observation (the harness prints spec=ok) *)
+  let (verdict, _) = spec_eval ops mops in
   Printf.fprintf out "%s\t%d\tspec=%s\n" id !nprinted verdict;
   let tl = Hashtbl.fold (fun k () acc -> k :: acc) tags [] in
   if tl <> [] then
     Printf.fprintf out "%s\ttags\t%s\n" id (String.concat "," (Stdlib.List.sort compare tl))
 
 let registered = Registry.register "C09" run
+
+(* ---- extraction cross-check inside Coq (see c18.ml): run_variant (with the variant this runner
+   used) on the case's model ops, and hist_ok_variant when the stream statement was evaluated,
+   recomputed by vm_compute and compared with what this extracted runner computed. *)
+let coq_seg (g : C09Model.segment) =
+  Printf.sprintf "(mkSeg %s %s %s %s %s %s %s)" (coq_z g.C09Model.g_seq) (coq_bool g.C09Model.g_syn) (coq_bool g.C09Model.g_fin)
+    (coq_bool g.C09Model.g_rst) (coq_bool g.C09Model.g_force) (coq_z g.C09Model.g_ts) (coq_zlist g.C09Model.g_bytes)
+let coq_op (o : C09Model.op) = match o with
+  | C09Model.OCfg (a, b) -> Printf.sprintf "OCfg %s %s" (coq_z a) (coq_z b)
+  | C09Model.OKeep k -> "OKeep " ^ coq_list (coq_pair coq_z coq_z) k
+  | C09Model.OSeg g -> "OSeg " ^ coq_seg g
+  | C09Model.OFlush (t, tc) -> Printf.sprintf "OFlush %s %s" (coq_z t) (coq_z tc)
+  | C09Model.OFlushAll -> "OFlushAll"
+let coq_event (e : C09Model.event) = match e with
+  | C09Model.ENew sid -> "ENew " ^ coq_nat sid
+  | C09Model.ESG (sid, bytes, st, en, skip, avail, saved) ->
+    Printf.sprintf "ESG %s %s %s %s %s %s %s" (coq_nat sid) (coq_zlist bytes) (coq_bool st) (coq_bool en) (coq_z skip) (coq_z avail) (coq_z saved)
+  | C09Model.EDone sid -> "EDone " ^ coq_nat sid
+  | C09Model.EPanic s -> "EPanic " ^ coq_z s
+  | C09Model.ETag t -> "ETag " ^ coq_z t
+let coq_hop (h : C09Spec.hop) = match h with
+  | C09Spec.HCfg (a, b) -> Printf.sprintf "HCfg %s %s" (coq_z a) (coq_z b)
+  | C09Spec.HKeep k -> "HKeep " ^ coq_list (coq_pair coq_z coq_z) k
+  | C09Spec.HSyn (n, ts) -> Printf.sprintf "HSyn %s %s" (coq_z n) (coq_z ts)
+  | C09Spec.HData (o, n, fin, rst, ts) -> Printf.sprintf "HData %s %s %s %s %s" (coq_z o) (coq_z n) (coq_bool fin) (coq_bool rst) (coq_z ts)
+  | C09Spec.HFlush (t, tc) -> Printf.sprintf "HFlush %s %s" (coq_z t) (coq_z tc)
+  | C09Spec.HFlushAll -> "HFlushAll"
+let to_coq (idx : int) (ops : string list) (out : out_channel) =
+  let mops = Stdlib.List.filter_map parse_op ops in
+  let (d, f, k, y, va, vb) = variant in
+  let vs = String.concat " " (Stdlib.List.map coq_bool [d; f; k; y; va; vb]) in
+  let nbytes = Stdlib.List.fold_left (fun a o -> match o with C09Model.OSeg g -> a + Stdlib.List.length g.C09Model.g_bytes | _ -> a) 0 mops in
+  if nbytes <= 600 then begin
+    let tr = C09Model.run_variant d f k y va vb mops in
+    coq_example out idx (Printf.sprintf "run_variant %s %s" vs (coq_list coq_op mops))
+      ("[" ^ String.concat ";\n     " (Stdlib.List.map (coq_pair (coq_list coq_event) coq_z) tr) ^ "]");
+    match spec_eval ops mops with
+    | (verdict, Some (sbytes, isn, hops)) ->
+      coq_example_named out (Printf.sprintf "sample_%d_spec" idx)
+        (Printf.sprintf "hist_ok_variant %s %s %s %s" vs (coq_zlist sbytes) (coq_z isn) (coq_list coq_hop hops))
+        (coq_bool (verdict = "ok"))
+    | _ -> ()
+  end
+let registered_coq = Registry.register_coq "C09" ("From GP Require Import Base C09Model C09Spec.\n", to_coq)
